@@ -124,6 +124,24 @@ def correspond(ctx):
         exprs.append(f"trajectory false {g_instrs(tinstrs)}")
         cases.append((n, tinstrs))
     vals = common.coq_eval_sharded(HEADER, exprs, tag="c02")
+    # gauge discipline on real gates: the model says every two-qubit gate finds the centre at site 0
+    gcases, gexprs, gimpl = [], [], []
+    for k in range(ctx.scale(14, 200)):
+        if k % 3 == 0:
+            n, gates = structured(ctx.rng, n=int(ctx.rng.choice([6, 8])))
+        else:
+            n, gates = gen(ctx.rng, n=int(ctx.rng.integers(3, 8)), m=int(ctx.rng.integers(4, 16)))
+        gimpl.append(gauge_trace(n, gates))
+        instrs = [(i, "G1" if len(qs) == 1 else "G2", qs, name, par) for i, (name, qs, par) in enumerate(gates)]
+        gexprs.append(f"match run false (length {g_instrs(instrs)}) {g_instrs(instrs)} with Some (ex, _) => "
+                      f"map snd (filter (fun p => match fst p with GTwo => true | _ => false end) (combine (gauge_word ex) (gauge_run true (gauge_word ex)))) | None => [] end")
+        gcases.append((n, gates))
+    gv = common.coq_eval_sharded(HEADER, gexprs, tag="c02g")
+    for (n, gates), gi, gm in zip(gcases, gimpl, gv):
+        ctx.case(nontrivial_key=("gauge", str(gates)) if n >= 6 else None, validated=True)
+        ctx.count("gauge_traces")
+        if gi != gm:
+            ctx.mismatch("centre before each two-qubit gate vs DigitalLoop.gauge_run", {"qubits": n, "gates": gates}, gi, gm)
     for (n, instrs), (ev, err), v in zip(cases, impl, vals):
         mev = model_events(v)
         rev = any(k == "G2" and q[0] > q[1] for (_, k, q, _, _) in instrs)
@@ -132,6 +150,52 @@ def correspond(ctx):
         got = [e if e[0] == "G" else ("S",) for e in ev]
         if err or got != mev:
             ctx.mismatch("digital_tjm schedule vs DigitalLoop.trajectory", {"qubits": n, "instrs": [list(x) for x in instrs]}, err or ev, mev)
+
+
+def gauge_trace(n, gates):
+    """Real gates, real loop: before every two-qubit gate, is the state right-canonical (centre at site 0), as
+    apply_window presupposes?  Returns the list of booleans in execution order."""
+    import mqt.yaqs.digital.digital_tjm as D
+    from mqt.yaqs.core.data_structures.networks import MPS
+    from mqt.yaqs.core.data_structures.simulation_parameters import Observable, StrongSimParams
+
+    from drivers.C11 import centre_of
+
+    log = []
+    real2 = D.apply_two_qubit_gate
+
+    def g2(state, node, sp):
+        log.append(0 in centre_of(state))
+        return real2(state, node, sp)
+
+    D.apply_two_qubit_gate = g2
+    try:
+        p = StrongSimParams([Observable("z", 0)], show_progress=False, threshold=1e-13, max_bond_dim=64)
+        with common.time_limit(120):
+            D.digital_tjm((0, MPS(n, state="x+"), None, p, to_qiskit(n, gates)))
+    finally:
+        D.apply_two_qubit_gate = real2
+    return log
+
+
+def structured(rng, n=8):
+    """brickwork rounds, a rotation layer, then a layer mixing an odd-bond gate with an even-bond gate further right"""
+    gates = []
+    for _ in range(2):
+        for q in range(n):
+            gates.append(("ry", [q], [float(rng.uniform(0.3, 2.8))]))
+        for q in range(0, n - 1, 2):
+            gates.append(("rxx", [q, q + 1], [float(rng.uniform(0.4, 2.0))]))
+        for q in range(1, n - 1, 2):
+            gates.append(("rzz", [q, q + 1], [float(rng.uniform(0.4, 2.0))]))
+    for q in range(n):
+        gates.append(("rx", [q], [float(rng.uniform(0.3, 2.8))]))
+    a = int(rng.choice([q for q in range(1, n - 3, 2)]))
+    gates.append(("ryy", [a, a + 1], [float(rng.uniform(0.4, 2.0))]))
+    b = int(rng.choice([q for q in range(a + 3 - (a + 3) % 2, n - 1, 2)]))
+    gates.append((str(rng.choice(["rzz", "cx"])), [b, b + 1] if rng.random() < 0.5 else [b + 1, b], [float(rng.uniform(0.4, 2.0))]))
+    gates = [(nm, qs, par if nm not in ("cx",) else []) for nm, qs, par in gates]
+    return n, gates
 
 
 STATES = ["zeros", "ones", "x+", "x-", "y+", "y-", "Neel", "wall", "basis"]
@@ -144,6 +208,15 @@ def search(ctx):
         dict(n=3, gates=[("h", [0], []), ("cx", [1, 0], []), ("cp", [1, 2], [0.3]), ("rxx", [2, 1], [0.4]), ("u", [2], [0.3, 0.2, 0.1])], state="y+"),
     ]
     plan = list(fixed)
+    # start from the circuits on which model and implementation diverged
+    for mm in ctx.mismatches[:12]:
+        c = mm.get("case")
+        if isinstance(c, dict) and "gates" in c:
+            for st in ("zeros", "x+"):
+                plan.append(dict(n=c["qubits"], gates=[tuple(g) for g in c["gates"]], state=st))
+    for k in range(ctx.scale(2, 20)):
+        n, gates = structured(ctx.rng, n=8)
+        plan.append(dict(n=n, gates=gates, state="zeros", num_traj=int(ctx.rng.choice([1, 7]))))
     for k in range(ctx.scale(22, 400)):
         n, gates = gen(ctx.rng, n=int(ctx.rng.integers(2, 5 if ctx.quick else 6)), m=int(ctx.rng.integers(2, 11)))
         st = STATES[k % len(STATES)]
